@@ -60,10 +60,25 @@ CheckerScenarios(p) ==
       CSetCbOp(<<[k |-> "del", which |-> "clm", v |-> Val("int", "nbf", W0, 0), map |-> 0],
                  [k |-> "set", which |-> "clm", v |-> Val("str", "iss", "me", 1), map |-> 0]>>),
       ForgeOp(0, [Good(KEcPub, "ES256") EXCEPT !.pay.m = <<StrM("iss", "you"), IntM("nbf", WAdd(T0, WOf(500)))>>]), VerifyOp(SlotTok(0))>> }
+\* configuration calls REPEATED on a checker that already holds a value (a replaced expectation, a second setkey, a
+\* second leeway, a replaced callback): a fault in the second call leaves either the old or the new configuration,
+\* never none - tokens neither of them accepts stay refused
+ReconfScenarios(p) ==
+  { <<OpsOp(p), L("create", "keys", <<KOct>>), CNewOp, CSetKeyOp("HS256", 0), CClaimSetOp("iss", "one"), CClaimSetOp("iss", "two"),
+      ForgeOp(0, [Good(KOct, "HS256") EXCEPT !.pay.m = <<StrM("iss", "three")>>]), VerifyOp(SlotTok(0)),
+      ForgeOp(1, [Good(KOct, "HS256") EXCEPT !.pay.m = <<>>]), VerifyOp(SlotTok(1))>>,
+    <<OpsOp(p), L("create", "keys", <<KOct>>), CNewOp, CSetKeyOp("HS256", 0), CClaimSetOp("aud", "a"), CClaimSetOp("sub", "s"), CClaimSetOp("aud", "b"), CClaimDelOp("sub"),
+      ForgeOp(0, [Good(KOct, "HS256") EXCEPT !.pay.m = <<StrM("aud", "c"), StrM("sub", "s")>>]), VerifyOp(SlotTok(0))>>,
+    <<OpsOp(p), L("create", "keys", <<KOct, KEcPub>>), CNewOp, CSetKeyOp("HS256", 0), CSetKeyOp("ES256", 1), CLeewayOp("exp", WOf(10)), CLeewayOp("exp", WOf(0)),
+      ForgeOp(0, Tok("none", <<>>, <<>>, EmptySig)), VerifyOp(SlotTok(0)),
+      ForgeOp(1, [Good(KEcPub, "ES256") EXCEPT !.pay.m = <<IntM("exp", WSub(T0, WOf(5)))>>]), VerifyOp(SlotTok(1))>>,
+    <<OpsOp(p), L("create", "keys", <<KOct>>), CNewOp, CSetKeyOp("HS256", 0), CSetCbOp(<<CbRet(1)>>), CSetCbOp(<<CbRet(1), Read>>), ForgeOp(0, Good(KOct, "HS256")), VerifyOp(SlotTok(0))>>,
+    <<OpsOp(p), L("create", "keys", <<KOct>>), BNewOp, BSetKeyOp("HS256", 0), BM("set", "clm", Val("str", "sub", "a", 0)), BM("set", "clm", Val("str", "sub", "b", 1)),
+      BM("set", "hdr", Val("str", "kid", "k", 0)), BM("set", "hdr", Val("str", "kid", "k2", 1)), GenerateOp(0)>> }
 RoundTrip(p) ==
   { <<OpsOp(p), L("create", "keys", <<KEd, KOct>>), BNewOp, BSetKeyOp("none", 0), GenerateOp(0), CNewOp, CSetKeyOp("none", 0), VerifyOp(SlotTok(0))>> }
 Provs == IF Quick THEN {"openssl"} ELSE Providers
-C17Scripts == LoadScenarios \cup UNION { BuilderScenarios(p) \cup CheckerScenarios(p) \cup RoundTrip(p) : p \in Provs }
+C17Scripts == LoadScenarios \cup UNION { BuilderScenarios(p) \cup CheckerScenarios(p) \cup ReconfScenarios(p) \cup RoundTrip(p) : p \in Provs }
               \cup (IF Quick THEN { s \in CheckerScenarios("gnutls") : s[2].op = "Load" /\ s[2].keys[1].kty # "oct" }
                                   \cup { s \in BuilderScenarios("gnutls") : s[2].op = "Load" /\ s[2].keys[1].kty # "oct" } ELSE {})
 MCSpec == ISpecWith(C17Scripts)
